@@ -428,7 +428,7 @@ package tor
 //@   assertcall [nowait] (*Requested).Add :: want ==> !Ghost_complete
 //@   ensures  [rq]     RQOpen(&t.requested) && RQDistinct(&t.requested) && t.requested.pieces != nil
 //@   ensures  [range]  int(index) >= len(t.PieceHashes) ==> $r0 == nil && !$r1
-//@   props    C10
+//@   props    C10 C02
 
 // ---- Privacy switches (C18) ----
 // The switches are preconditions of the functions that talk to the outside,
@@ -550,11 +550,16 @@ package tor
 // Kill: first select waits for Done; once the GoAway is queued it waits for
 // Deleted (closed by the wrapper after the loop has exited and Done is closed)
 // or the caller's context.
+// Kill reports success (a nil that is not the error value of a context that is
+// not done -- ctx.Err() is only called after a receive from ctx.Done()) only
+// after it has seen Deleted (not merely Done: between
+// the two the piece memory is released and the torrent unlisted).
 //@ func (*Torrent).Kill
 //@   requires t != nil
 //@   waitsfor t.Done, t.Deleted
 //@   modifies *
-//@   focus    blocking
+//@   ensures  [deleted] $r0 == nil ==> lastrecv_(t.Deleted) || !ctxDone(ctx)
+//@   focus    blocking, post:deleted
 //@   props    C17
 //@ func (*Torrent).NewPeer
 //@   requires t != nil
